@@ -120,3 +120,54 @@ func Describe(cs []*mdiff.Chunk) string {
 	}
 	return s
 }
+
+// LongPair builds a file of n lines and an edited copy: deletions, insertions
+// and replacements of one or two lines with exactly gap unchanged lines
+// between consecutive edits (so that context of size c merges neighbouring
+// chunks when gap <= 2c and keeps them apart otherwise). Every tenth line is
+// the same "}" so that the file has repeated lines. The result is an alphabet
+// and two index sequences, the shape the checks' cases use.
+func LongPair(n, gap int) (alpha []string, L, R []int) {
+	for i := 0; i < n; i++ {
+		if i%10 == 9 {
+			alpha = append(alpha, "}")
+		} else {
+			alpha = append(alpha, fmt.Sprintf("line %d", i))
+		}
+		L = append(L, i)
+	}
+	fresh := func() int {
+		alpha = append(alpha, fmt.Sprintf("new %d", len(alpha)-n))
+		return len(alpha) - 1
+	}
+	pos, k := 2, 0
+	for i := 0; i < n; {
+		if i != pos {
+			R = append(R, L[i])
+			i++
+			continue
+		}
+		switch k % 5 {
+		case 0: // delete one line
+			i++
+		case 1: // insert one line
+			R = append(R, fresh())
+		case 2: // replace two lines by one
+			R = append(R, fresh())
+			i += 2
+		case 3: // insert two lines
+			R = append(R, fresh(), fresh())
+		case 4: // delete two lines
+			i += 2
+		}
+		k++
+		pos = i + gap
+		if gap == 0 {
+			pos = i + 1 // adjacent edits would be one edit; keep one line between them
+		}
+	}
+	if k%2 == 1 {
+		R = append(R, fresh()) // an insertion at the very end
+	}
+	return alpha, L, R
+}
